@@ -31,6 +31,8 @@ def rules(ctx):
     c045(ctx)
     c046(ctx)
     c047(ctx)
+    from . import C13
+    C13.c135(ctx)
 
 
 def gate_dominates(f, g, pt):
@@ -46,7 +48,8 @@ def c041(ctx):
         return
     am = ctx.calls(R, f, TREE + "apply_manifest_compaction$")
     gates = K.equality_gates(f)
-    g = K.find_gate(gates, {"input_setsum"}, {"output_setsum", "discard_setsum"})
+    # name-free: input = parameter 5, discard = parameter 6, output = an accumulator of from_digest(stat(path).setsum)
+    g = K.find_gate_sig(gates, {"p5"}, {"p6", "acc"})
     ctx.check(R, f, "balance-gate", g is not None and g["fails_closed"],
               "input_setsum is compared with output_setsum + discard_setsum and inequality leads only to error returns",
               "the input == output + discard comparison is missing or no longer fails closed")
@@ -61,7 +64,7 @@ def c041(ctx):
                   "output_setsum += setsum of each output inside the link loop", "output_setsum no longer accumulates every linked output")
         # the value passed on as discard is the one that was balanced
         for pt in am:
-            ctx.check(R, f, "discard-forwarded", "discard_setsum" in K.var_names(f, P.term_at(f, pt)["args"][2]),
+            ctx.check(R, f, "discard-forwarded", "p6" in K.sig(f, P.term_at(f, pt)["args"][2]),
                       "the balanced discard_setsum is what apply_manifest_compaction records",
                       "apply_manifest_compaction is given a discard other than the balanced one", pt=pt)
 
@@ -102,12 +105,12 @@ def c042(ctx):
         for ip in P.call_points(f, r"mani::Edit::info$"):
             cs = [chr(c["v"]) for c in K.arg_consts(f, ip, 1) if "v" in c]
             if cs == ["O"]:
-                names = K.var_names(f, P.term_at(f, ip)["args"][2])
-                ctx.check(R, f, "O-is-output", "output_setsum" in names and "tree_setsum" in names,
+                sg = K.sig(f, P.term_at(f, ip)["args"][2])
+                ctx.check(R, f, "O-is-output", "c:compute_setsum" in sg and bool(sg & {"p2", "p3"}),
                           "'O' records tree_setsum - discard (the planned output)", "'O' no longer records the planned output setsum", pt=ip)
             if cs == ["I"]:
-                names = K.var_names(f, P.term_at(f, ip)["args"][2])
-                ctx.check(R, f, "I-is-tree", "tree_setsum" in names, "'I' records the current tree setsum", "'I' no longer records the tree setsum", pt=ip)
+                sg = K.sig(f, P.term_at(f, ip)["args"][2])
+                ctx.check(R, f, "I-is-tree", "c:compute_setsum" in sg and not (sg & {"p2", "p3"}), "'I' records the current tree setsum", "'I' no longer records the tree setsum", pt=ip)
 
 
 def c043(ctx):
@@ -116,7 +119,7 @@ def c043(ctx):
     f = ctx.fn(R, TREE + "from_manifest")
     if f:
         gates = K.equality_gates(f, None)
-        g = K.find_gate(gates, {"version_setsum"}, {"mani_setsum"})
+        g = K.find_gate_sig(gates, {"c:compute_setsum"}, {"info:O"})
         ctx.check(R, f, "open-gate", g is not None and g["fails_closed"], "version_setsum is compared with mani_setsum and inequality fails the open",
                   "the tree-vs-manifest setsum comparison on open is missing or no longer fails closed")
         if g:
@@ -135,9 +138,10 @@ def c043(ctx):
         gates = K.equality_gates(f)
         g = None
         for x in gates:
-            both = x["a"] | x["b"]
-            if planned in both and any(n.startswith("tree_setsum") or n == "new_version" for n in both) and x["fails_closed"]:
-                g = x
+            # both operands are recomputed tree setsums; for ingest/compaction the planned side also carries the discard parameter
+            if "c:compute_setsum" in x["sa"] and "c:compute_setsum" in x["sb"] and x["fails_closed"]:
+                if name == "apply_moving_compaction" or ((x["sa"] | x["sb"]) & {"p2", "p3"}):
+                    g = x
         ctx.check(R, f, "install-assert", g is not None, "the new version's compute_setsum() is asserted equal to %s" % planned,
                   "the recomputed setsum of the new version is no longer checked against %s" % planned)
         if g:
@@ -146,7 +150,7 @@ def c043(ctx):
                           "install_version is reachable without the setsum assertion", pt=pt)
             # one operand is compute_setsum of the *new* version
             cs = P.call_points(f, r"lsmtk::tree::Version::compute_setsum$")
-            newv = [p for p in cs if "new_version" in K.var_names(f, P.term_at(f, p)["args"][0])]
+            newv = [p for p in cs if any(s_["k"] == "call" and s_["callee"].endswith(("Version::ingest", "Version::apply_compaction")) for s_ in P.origins(f, P.term_at(f, p)["args"][0]))]
             ctx.check(R, f, "assert-on-new-version", bool(newv) and not P.order(f, newv, [g["pt"]]),
                       "compute_setsum(new_version) feeds the assertion", "the assertion does not recompute the new version's setsum")
 
@@ -236,19 +240,19 @@ def c045(ctx):
                   "an input entry can be skipped without being rewritten or accounted in discard", pt=n, path=p)
     ctx.order_chain(R, f, [("Setsum::insert(kvr)", ins), ("discard += setsum", aa)], cycles=True)
     for pt in ins:
-        ctx.check(R, f, "insert-current", "kvr" in K.var_names(f, P.term_at(f, pt)["args"][1]), "the entry inserted into the discard is the current kvr",
+        ctx.check(R, f, "insert-current", any(c.endswith("::key_value") for c in P.origin_calls(f, P.term_at(f, pt)["args"][1])), "the entry inserted into the discard is the current kvr",
                   "the discarded setsum is not computed from the current entry", pt=pt)
     cf = ctx.calls(R, f, TREE + "compaction_finish$")
     for pt in cf:
-        ctx.check(R, f, "discard-reported", "discard" in K.var_names(f, P.term_at(f, pt)["args"][5]), "compaction_finish receives the accumulated discard",
+        ctx.check(R, f, "discard-reported", "acc" in K.sig(f, P.term_at(f, pt)["args"][5]), "compaction_finish receives the accumulated discard",
                   "compaction_finish is not given the accumulated discard", pt=pt)
-        ctx.check(R, f, "input-reported", "input_setsum" in K.var_names(f, P.term_at(f, pt)["args"][4]), "compaction_finish receives compaction_setup's input setsum",
+        ctx.check(R, f, "input-reported", "c:compaction_setup" in K.sig(f, P.term_at(f, pt)["args"][4]) or any(c.endswith("compaction_setup") for c in P.origin_calls(f, P.term_at(f, pt)["args"][4])), "compaction_finish receives compaction_setup's input setsum",
                   "compaction_finish is not given the input setsum", pt=pt)
     g = ctx.fn(R, TREE + "perform_compaction")
     if g:
         for pt in ctx.calls(R, g, TREE + "compaction_finish$"):
             names = K.src_names(g, P.term_at(g, pt)["args"][5])
-            ctx.check(R, g, "no-discard", "default()" in names and "discard" not in K.var_names(g, P.term_at(g, pt)["args"][5]),
+            ctx.check(R, g, "no-discard", "default()" in names and "acc" not in K.sig(g, P.term_at(g, pt)["args"][5]),
                       "a plain compaction reports Setsum::default() as discard", "a plain compaction reports a non-empty discard", pt=pt)
     h = ctx.fn(R, TREE + "compaction_setup")
     if h:
@@ -267,32 +271,33 @@ def c046(ctx):
     f = ctx.fn(R, VER + "LsmVerifier::verify_one")
     if f:
         gates = K.equality_gates(f, None)
-        want = [("first edit continues acc", {"outputs"}, {"acc"}), ("edit continues acc", {"inputs"}, {"acc"}),
-                ("I == O + D", {"inputs"}, {"outputs", "discard"}), ("recomputed discard", {"discard"}, {"computed_discard"}),
-                ("final output", {"last_outputs"}, {"acc"})]
-        for name, a, b in want:
-            cand = [g for g in gates if ((a <= g["a"] and b <= g["b"]) or (a <= g["b"] and b <= g["a"])) and g["fails_closed"]]
-            if name == "edit continues acc":
-                cand = [g for g in cand if "outputs" not in (g["a"] | g["b"]) or "inputs" in (g["a"] | g["b"])]
-            ctx.check(R, f, "gate:" + name, bool(cand), "gate `%s` exists and inequality leads only to error returns" % name,
+        closed = [g for g in gates if g["fails_closed"]]
+        # name-free operand signatures: 'I'/'O'/'D' = setsum_from_info(<char>, ..); p3 = the accumulated setsum passed in;
+        # the recomputed discard is an accumulator of +/- Setsum::from_hexdigest over the edit's rmed/added strings
+        want = [("first edit continues acc", dict(a={"info:O"}, b={"p3"}, not_a={"info:I", "info:D"}, not_ga="Option")),
+                ("edit continues acc", dict(a={"info:I"}, b={"p3"}, not_a={"info:O", "info:D"})),
+                ("I == O + D", dict(a={"info:I"}, b={"info:O", "info:D"}, not_a={"info:O"})),
+                ("recomputed discard", dict(a={"info:D"}, b={"acc<-+from_hexdigest", "acc<--from_hexdigest"})),
+                ("final output", dict(a={"info:O"}, b={"p3"}, ga="Option"))]
+        for name, kw in want:
+            ctx.check(R, f, "gate:" + name, K.find_gate_sig(closed, **kw) is not None, "gate `%s` exists and inequality leads only to error returns" % name,
                       "the verifier gate `%s` is missing or no longer fails closed" % name)
-        fin = K.find_gate([g for g in gates if g["fails_closed"]], {"last_outputs"}, {"acc"})
+        fin = K.find_gate_sig(closed, {"info:O"}, {"p3"}, ga="Option")
         if fin:
             for pt in P.ok_points(f):
                 ctx.check(R, f, "final-gate-dominates", gate_dominates(f, fin, pt), "Ok is returned only when the accumulated setsum equals the last output",
                           "verify_one can return Ok without the final output comparison", pt=pt)
         vg = ctx.calls(R, f, VER + "LsmVerifier::verify_gc$")
         for pt in vg:
-            g1 = [g for g in gates if "discard" in (g["a"] | g["b"]) and not g["fails_closed"] and P.edge_dominates(f, g["bb"], g["differ_label"], pt)]
+            g1 = [g for g in gates if "info:D" in (g["sa"] | g["sb"]) and not g["fails_closed"] and P.edge_dominates(f, g["bb"], g["differ_label"], pt)]
             g2 = [g for g in K.compare_guards(f, pt) if g["op"] == "Gt" and "count()" in K.src_names(f, g["a"]) and g["holds"]]
             ctx.check(R, f, "verify_gc-guard", bool(g1) and bool(g2), "verify_gc runs when discard != default and the edit removed files",
                       "verify_gc is no longer run for every edit with a non-empty discard and removed files", pt=pt)
         # every loop iteration that is not the first passes the discard gate
-        dg = K.find_gate([g for g in gates if g["fails_closed"]], {"discard"}, {"computed_discard"})
     f = ctx.fn(R, VER + "LsmVerifier::verify_gc")
     if f:
         gates = K.equality_gates(f, None)
-        g = K.find_gate([x for x in gates if x["fails_closed"]], {"computed_discard"}, {"discard"})
+        g = K.find_gate_sig([x for x in gates if x["fails_closed"]], {"acc"}, {"p3"})
         ctx.check(R, f, "gate:gc discard", g is not None, "computed_discard is compared with the recorded discard and inequality is an error",
                   "verify_gc no longer compares the recomputed discard")
         if g:
@@ -312,9 +317,10 @@ def c046(ctx):
     f = ctx.fn(R, VER + "ManifestVerifier::verify")
     if f:
         gates = [g for g in K.equality_gates(f, None) if g["fails_closed"]]
-        for name, a, b in (("edit continues acc", {"inputs"}, {"acc"}), ("I == O + D", {"inputs"}, {"outputs", "discard"}),
-                           ("recomputed discard", {"discard"}, {"computed_discard"})):
-            ctx.check(R, f, "gate:" + name, K.find_gate(gates, a, b) is not None, "gate `%s` exists and fails closed" % name,
+        for name, kw in (("edit continues acc", dict(a={"info:I"}, b={"acc", "info:O"}, not_a={"info:O", "info:D"}, not_b={"info:D"})),
+                         ("I == O + D", dict(a={"info:I"}, b={"info:O", "info:D"}, not_a={"info:O"})),
+                         ("recomputed discard", dict(a={"info:D"}, b={"acc<-+from_hexdigest", "acc<--from_hexdigest"}))):
+            ctx.check(R, f, "gate:" + name, K.find_gate_sig(gates, **kw) is not None, "gate `%s` exists and fails closed" % name,
                       "ManifestVerifier gate `%s` is missing or no longer fails closed" % name)
 
 
@@ -325,7 +331,11 @@ def c047(ctx):
     if not f:
         return
     gates = [g for g in K.equality_gates(f) if g["fails_closed"]]
-    g = K.find_gate(gates, {"got_setsum"}, {"imm_setsum"})
+    g = None
+    for x in gates:
+        for a, b in ((x["sa"], x["sb"]), (x["sb"], x["sa"])):
+            if any(t.startswith("C:") and "SstBuilder" in t and t.endswith("::seal") for t in a) and any(t.startswith("C:") and "ConcurrentLogBuilder::seal" in t for t in b):
+                g = x
     ctx.check(R, f, "flush-gate", g is not None, "got_setsum (sealed sst) is compared with imm_setsum (sealed log); inequality is an error",
               "the memtable-vs-log setsum comparison is missing or no longer fails closed")
     if g:
